@@ -3,7 +3,7 @@ import re
 from collections import deque
 
 RE_STATE = re.compile(r"^\{(\d+)\} perms: (.*)$")
-RE_TR = re.compile(r"^    (.+) 0x([0-9a-fA-F]+) -> \{(\d+)\}")
+RE_TR = re.compile(r"^    (?:.+ )?0x([0-9a-fA-F]+) -> \{(\d+)\}")
 RE_ACC = re.compile(r"^\{(\d+)\} (\(0x .*\))\s*$")
 HEX = "0123456789abcdefABCDEF"
 
@@ -117,7 +117,7 @@ def parse_dump(text):
             continue
         m = RE_TR.match(l)
         if m:
-            st.tr[int(m.group(2), 16)] = int(m.group(3))
+            st.tr[int(m.group(1), 16)] = int(m.group(2))
             continue
         if l.startswith("    ["):
             k = l.rfind("] -> {")
